@@ -379,3 +379,43 @@ SPECS["C10"] = Spec(
     bounds=lambda tier: {"request_path": "0..(2-6)+%d bytes per program" % (0 if tier == "quick" else 2), "programs": len(C10_PROGS)},
     rule="one job per registration history; each explored path is one equivalence class of requests",
 )
+
+
+# --------------------------------------------------------------------------- C03
+def c03_jobs(tier, seed):
+    # (middleware, group handlers, route handlers, action, cancel, kinds, deep)
+    if tier == "quick":
+        shapes = [(1, 0, 1, 1, 0, "010", 3), (1, 1, 1, 1, 0, "0101", 2), (1, 1, 1, 1, 0, "1010", 2), (0, 0, 2, 0, 1, "01", 2),
+                  (2, 0, 1, 0, 1, "100", 1)]
+    else:
+        shapes = []
+        for kinds in ("000", "111", "010", "101"):
+            shapes.append((1, 0, 1, 1, 0, kinds, 3))
+            shapes.append((1, 0, 1, 1, 1, kinds, 2))
+        for kinds in ("0000", "1111", "0101", "1010", "0011", "1100"):
+            shapes.append((1, 1, 1, 1, 0, kinds, 3))
+            shapes.append((1, 1, 1, 1, 1, kinds, 1))
+        for kinds in ("00000", "01010", "10101"):
+            shapes.append((1, 1, 2, 1, 0, kinds, 2))
+        shapes.append((2, 1, 2, 1, 0, "010101", 1))
+    jobs = []
+    for mw, grp, rt, action, cancel, kinds, deep in shapes:
+        jobs.append({"pkg_short": "flamego", "body": "VH_C03_chain", "max_paths": 900000,
+                     "params": {"mw": mw, "grp": grp, "rt": rt, "action": action, "cancel": cancel, "kinds": kinds, "deep": deep}})
+    return jobs
+
+
+SPECS["C03"] = Spec(
+    "C03", ["flamego/c13.go", "flamego/c03.go", "route/parse.go"], c03_jobs,
+    assumptions=[
+        "a real Flame instance (NewWithLogger, Use, Group, Get, Action, ServeHTTP, createContext, newContext, run, Next, inject, default return handler, responseWriter) is executed; only the logger constructor is stubbed",
+        "handlers are func(Context) (wrapped to ContextInvoker) or func(Context) string (reflective call through the reflect shim, rendered by the real default ReturnHandler)",
+        "each handler's behaviour word (writes before Next, 0-2 Next calls, writes after, returned body empty or not, cancels the request context) is a symbolic choice drawn when the handler first runs",
+        "the request context is a harness context.Context whose Done channel the harness closes",
+        "reference model written from the statement: start not-yet-started handlers in order, each at most once; stop on cancel; after a handler returns continue only if nothing was written",
+        "handlers do not spawn goroutines or keep the Context; panics are C15's subject",
+    ],
+    bounds=lambda tier: {"chain_shapes (middleware, group handlers, route handlers, action, cancellation)": "see jobs", "handlers_total": "<=4 quick, <=6 thorough",
+                         "next_calls_per_handler": "0..2"},
+    rule="every combination of behaviour words of the handlers that actually run; a chain is non-trivial when at least two handlers start",
+)
